@@ -933,9 +933,10 @@ class Pass2(CompilePass):
         if node.type == Type.UNKNOWN:
             raise CompileError(EC.TYPE_MISMATCH, node=node)
 
-        if node.left.type.is_array or node.right.type.is_array:
-            # a whole array is not a value
-            raise CompileError(EC.TYPE_MISMATCH, node=node)
+        for operand in (node.left, node.right):
+            if operand.type.is_array or not operand.type.is_builtin:
+                # a whole array or record is not a value
+                raise CompileError(EC.TYPE_MISMATCH, node=node)
 
     def process_unary_op_pre(self, node):
         # unary operators (NOT, +, -) are only valid on numeric
